@@ -24,7 +24,10 @@
      return no entry exists at the automatic export paths of the old name.  Hypotheses
      (explicit, about the path layout only): the export paths are not at/under the
      `~removed` path / the new layer path / any layerconfig (+ ".new") of a layer; the
-     layer path is not "/".
+     layer path is not "/".  `no_old_name_after_remove_placed`,
+     `no_old_name_after_rename_placed`: the same with ALL layout hypotheses derived from the
+     decidable condition `ExportsApart cfg` on the configuration (Lemmas/ExportsApart) and
+     `Placed` (layers lie in `<layerdirs>/<legal name>`, established by `readLayerFiles`).
   4. `links_after_mount_partial`: after a normal non-pretend return of
      `makeExportSymlinks`, each automatic export entry whose source directory existed is a
      symbolic link; it points at that directory when nothing was there before and no
@@ -44,6 +47,7 @@
 import Lc.Lemmas.ExportLinks
 import Lc.Lemmas.ExportPath
 import Lc.Lemmas.MountLinks
+import Lc.Lemmas.ExportsApart
 
 set_option mvcgen.warning false
 
@@ -342,6 +346,54 @@ theorem no_old_name_after_rename (cfg : Config) (d : Defs) (oldname newname : By
   have h2 := (onOk h d' hok).2
   intro e he
   exact (lexists_false_iff _ _).mpr (h2 e.1 (List.mem_map.mpr ⟨e, he, rfl⟩))
+
+/-- `no_old_name_after_remove` with its layout hypotheses (`l.layerPath ≠ "/"`, no export path
+    at/under `<layer>~removed`) derived: `ExportsApart cfg` (decidable, configuration only) and
+    `Placed cfg l` (the layer lies in `<layerdirs>/<legal name>`). -/
+theorem no_old_name_after_remove_placed (cfg : Config) (d : Defs) (name : Bytes) (files : Bool) (w0 : World)
+    (hp : w0.pretend = false) (l : Layer) (hl : findLayer d name = some l)
+    (hA : ExportsApart.ExportsApart cfg) (hpl : LayerPaths.Placed cfg l)
+    (d' : Defs) (hok : ((removeLayer cfg d name files).run.run w0).1 = .ok d') :
+    ∀ e ∈ autoExportPaths cfg l,
+      Fs.lexists ((removeLayer cfg d name files).run.run w0).2.fs e.1 = false :=
+  no_old_name_after_remove cfg d name files w0 hp l hl (ExportsApart.placed_ne_root cfg l hpl)
+    (fun m hm => by
+      have := (ExportsApart.exportsApart_below cfg hA l hpl l.name hpl.2.1 hpl.2.2 m hm).2
+      rw [← hpl.1] at this
+      exact this) d' hok
+
+/-- `no_old_name_after_rename` with ALL its layout hypotheses derived: `ExportsApart cfg` and a
+    table whose layers are `Placed` (as `findLayers` builds it).  That the new name is legal
+    follows from the normal return. -/
+theorem no_old_name_after_rename_placed (cfg : Config) (d : Defs) (oldname newname : Bytes) (co : List Bytes)
+    (w0 : World) (hp : w0.pretend = false) (l : Layer) (hl : findLayer d oldname = some l)
+    (hA : ExportsApart.ExportsApart cfg) (hd : ∀ k ∈ d.layers, LayerPaths.Placed cfg k)
+    (d' : Defs) (hok : ((renameLayer cfg d oldname newname co).run.run w0).1 = .ok d') :
+    ∀ e ∈ autoExportPaths cfg l,
+      Fs.lexists ((renameLayer cfg d oldname newname co).run.run w0).2.fs e.1 = false := by
+  obtain ⟨hn1, hn2, _⟩ := ExportsApart.rename_ok_newname cfg d oldname newname co w0 d' hok
+  have hpl := hd l (LayerPaths.findLayer_name d oldname l hl).1
+  exact no_old_name_after_rename cfg d oldname newname co w0 hp l hl
+    (ExportsApart.placed_ne_root cfg l hpl)
+    (fun m hm => (ExportsApart.exportsApart_below cfg hA l hpl newname hn1 hn2 m hm).1)
+    (fun k hk => ExportsApart.clearOfConfig_of_apart cfg hA l hpl k (hd k hk))
+    (ExportsApart.clearOfConfig_of_apart cfg hA l hpl _ (ExportsApart.placed_renamed cfg l newname hn1 hn2))
+    d' hok
+
+-- non-vacuity of the two `_placed` theorems: the concrete configuration is apart, the layer placed
+example : ExportsApart.ExportsApart cfgX ∧ (∀ k ∈ dX.layers, LayerPaths.Placed cfgX k) ∧
+    findLayer dX b!"base" = some lX := by
+  unfold LayerPaths.Placed; decide
+
+-- `ExportsApart` is needed: with the export tree inside `<layer>~removed`
+-- (`exportdirs = /lc/layers/base~removed/x`) the condition fails, and so does the hypothesis
+-- `hsep` of `no_old_name_after_remove` (the links lie at/under `<layer>~removed`, so the
+-- directory rename would put entries back at/under them)
+example :
+    let bad : Config := { cfgX with exportdirs := b!"/lc/layers/base~removed/x" }
+    ¬ ExportsApart.ExportsApart bad ∧
+    ¬ (∀ m ∈ autoMounts bad lX, Fs.under (lX.layerPath ++ removedSuffix) m = false) := by
+  refine ⟨by decide +kernel, by decide⟩
 
 -- non-vacuity: the hypotheses hold for the concrete layer with both links in place, and
 -- the two commands do return normally there
